@@ -24,10 +24,12 @@ TECHNIQUE = "exhaustive enumeration of fixture datasets x pickle protocols x pro
 RULE = (
     "fixtures (labmc/fixtures/pickle_fix.py): explicit dataset(f) form {plain, dependency on another dataset, callback, "
     "effects, pre-set options, default options, with_options/with_default_options derivative, dispatch with overloads "
-    "registered before pickling (register + list overload), abstract with an overload, nocache} and decorator form "
+    "registered before pickling (register + list overload), abstract with an overload, nocache, self-referential overload graph, call-counting dataset} and decorator form "
     "{plain, dispatch, dependency}; protocols 0..5; round trip in-process and into a fresh interpreter (subprocess "
-    "started per protocol); dictionaries = product A x B x D; after loading: evaluate, keys, then register a new "
-    "alias and evaluate it.  Non-trivial = (dataset, protocol, process, dictionary) with a successful evaluation."
+    "started per protocol); dictionaries = product A x B x D; after loading: evaluate, keys, then register / overload a "
+    "new alias and evaluate it (dispatch-less datasets refuse like the original); originals observed before any "
+    "pickling and re-checked after all round trips; the fresh interpreter runs with another hash seed and must "
+    "serve stored values without running bodies.  Non-trivial = (dataset, protocol, process, dictionary) with a successful evaluation."
 )
 ASSUMPTIONS = ["fixture callables are importable module-level functions; the fresh interpreter imports the same fixture module from /verif"]
 FIX = "labmc.fixtures.pickle_fix"
